@@ -993,11 +993,6 @@ def _loop_exit_divisor(ctx, f, node, D, S):
             if fr:
                 cap_of_booking = fr['cap']
     if cap_of_booking is None:
-        loop_conds = cfg.conditions(cfg.node_of(loop)) if cfg.node_of(loop) is not None else []
-        own = [c_ for c_ in cfg.conditions(rnode) if not any(c_[0] is l_[0] for l_ in loop_conds) and c_[0] is not loop.test]
-        if own or (rnode is not None and rnode.ast is not None and eval_conditions(rnode.ast, c)):
-            # the booking is conditional, but not on a test the rule can read as `capacity - reserved > 0`
-            return ('undecided', f"the booking is guarded by `{src(own[0][0])[:60] if own else '..'}`, which the rule cannot read as free > 0")
         return "the booking is not guarded by free > 0"
     Dx = ex.expand(D, cn, stop=selfref)
     capD = parse_cap(Dx)
